@@ -120,6 +120,7 @@ def check(run):
     whosets(run, p, rt)
     flags(run, p)
     rw(run, p, E, rt)
+    verbatim(run, p, rt)
     from .c04 import split
     split(run, p, p.cls('FilesComparison'))
     run.rules['C10-SPLIT'] = run.rules.pop('C04-SPLIT') + ' (a reference regenerated from a string must split back into the lines the string splits into)'
@@ -375,3 +376,24 @@ def _mode_env(f):
                 and isinstance(n.value, ast.IfExp) and all(isinstance(x, ast.Constant) for x in (n.value.body, n.value.orelse)):
             env['#modes:' + n.targets[0].id] = [n.value.body.value, n.value.orelse.value]
     return env
+
+
+def verbatim(run, p, rt):
+    run.rule('C10-VERBATIM', 'regeneration stores the actual result as it is: what _write_reference_result writes is its `result` parameter '
+                             'untransformed, and _write_reference_file passes on exactly what it read')
+    w = p.lookup_method(rt.qn, '_write_reference_result')
+    writes = [x for x in p.own_nodes(w) if isinstance(x, ast.Call) and isinstance(x.func, ast.Attribute) and x.func.attr == 'write']
+    reassigned = [s for s in p.own_nodes(w) if isinstance(s, (ast.Assign, ast.AugAssign)) and
+                  any(norm(t) == 'result' for t in (s.targets if isinstance(s, ast.Assign) else [s.target]))]
+    ok = len(writes) == 1 and writes[0].args and norm(writes[0].args[0]) == 'result' and not reassigned
+    run.ob('C10-VERBATIM', '%s::%s' % (w.rel, w.short), ok,
+           '_write_reference_result writes %s%s' % (norm(writes[0].args[0]) if writes and writes[0].args else '?',
+                                                    '' if not reassigned else ' after `%s`' % norm(reassigned[0])[:50]), fn=w,
+           node=reassigned[0] if reassigned else (writes[0] if writes else None))
+    f = p.lookup_method(rt.qn, '_write_reference_file')
+    reads = [s for s in p.own_nodes(f) if isinstance(s, ast.Assign) and isinstance(s.value, ast.Call) and isinstance(s.value.func, ast.Attribute) and s.value.func.attr == 'read']
+    calls = [x for x in p.own_nodes(f) if isinstance(x, ast.Call) and norm(x.func) == 'self._write_reference_result']
+    ok2 = len(reads) == 1 and len(calls) == 1 and calls[0].args and norm(calls[0].args[0]) == norm(reads[0].targets[0]) and \
+        not [s for s in p.own_nodes(f) if isinstance(s, ast.Assign) and s is not reads[0] and any(norm(t) == norm(reads[0].targets[0]) for t in s.targets)]
+    run.ob('C10-VERBATIM', '%s::%s' % (f.rel, f.short), ok2, '_write_reference_file hands %s straight to _write_reference_result' % (norm(reads[0].targets[0]) if reads else '?'), fn=f)
+    run.floor('C10-VERBATIM', 2, 2)
